@@ -23,7 +23,8 @@ RULE = ("plain arrays: every numeric kind and size (i1..u8, f2 f4 f8 f16, c8 c16
         "patterns (NaN payloads, -0.0, extremes).  Each case is one of to_native / to_big_endian / "
         "to_little_endian / byteswap x inplace x keep_dtype.  Non-trivial: a structured array mixing "
         "multi-byte with single-byte/string fields, or a non-native input with inplace=True, or a 0-d or "
-        "strided input.  Distinct = distinct case JSON.")
+        "strided input.  Distinct = distinct case JSON."
+        " Inputs are plain ndarrays, recarrays or a trivial ndarray subclass.")
 ASSUMPTIONS = [
     "structured arrays are packed, not nested, and all multi-byte fields share one byte order "
     "(the property's quantifier); per-field mixtures are not generated",
